@@ -112,7 +112,7 @@ async def drive(tier: str, seed: int, corpus: E.Corpus, info: dict[str, Any], *,
         meta = {"seed": sd, "params": pa}
         # ---- (1) handle_request directly; the reply is judged by the client's parse_pdu
         p = K.ReplyProbe(s)
-        for sess in pick_sessions(m, 1 if quick else 4):
+        for sess in pick_sessions(m, 1 if quick else 3):
             items: list[C.Item] = []
             items += C.structural_family(m, sess, rnd)
             items += random_strings(rnd, 400 if quick else 3000)
@@ -165,7 +165,7 @@ def drive_client_and_tcp(tier: str, seed: int, corpus: E.Corpus, info: dict[str,
             p.fresh(E.ALL)
             out: list[dict[str, Any]] = []
             for typed in (False, True):
-                items = pdus_for(m, 1, p, 40 if quick else 600, 40 if quick else 600)
+                items = pdus_for(m, 1, p, 120 if quick else 600, 120 if quick else 600)
                 # dynamic items (keys) are resolved one by one, so send in small slices
                 buf: list[bytes] = []
                 for it in items:
@@ -186,12 +186,12 @@ def drive_client_and_tcp(tier: str, seed: int, corpus: E.Corpus, info: dict[str,
         counts["client"] += len(steps)
         corpus.add(m=mi, B=E.ALL, mode="A", steps=steps, meta=dict(meta, origin="client"))
 
-        if small or not quick or mi_ % 2 == 0:
+        if True:
             async def tcp_part() -> list[dict[str, Any]]:
                 s.state = type(s.state)()
                 loop = K.TcpLoop(s)
                 p0 = E.Probe(s, hook_pre=False)
-                items = pdus_for(m, 1, p0, 30 if quick else 300, 30 if quick else 300)
+                items = pdus_for(m, 1, p0, 60 if quick else 300, 60 if quick else 300)
                 pdus = [(it(p0) if callable(it) else it) for it in items]
                 pdus = [x for x in pdus if x is not None]
                 pdus += [bytes([0x22]) + bytes(4094), bytes([0x3E, 0x00])]
